@@ -20,6 +20,7 @@ type Options struct {
 	MBCWrites  bool // writes to 0000-7FFF (cartridge control)
 	CartType   int  // -1 = random among supported small carts
 	LCDOff     bool // switch the LCD off in the prologue
+	Stops      bool // STOP instructions in the body (the harness delivers key events)
 	NoHalt     bool
 }
 
@@ -265,6 +266,22 @@ func (g *gen) item() {
 	o := g.o
 	k := r.Intn(100)
 	switch {
+	case o.Stops && k >= 98:
+		// STOP (left by a key press, which the harness must deliver), sometimes after a store to
+		// the unmapped FF4D; the byte after STOP is a NOP
+		if r.Chance(1, 2) {
+			g.ioWrite(0x4d, r.U8())
+		}
+		g.emit(0x10, 0x00)
+	case k == 97 && !o.Interrupts && !o.AllOpcodes: // (no interrupt may arrive while the stack is there)
+		// a push immediately followed by a pop with the stack pointer somewhere stores do not
+		// stick (ROM, unmapped I/O, read-only registers): the pop must read what is there
+		a := r.Pick16([]uint16{uint16(r.Intn(0x8000)), 0xff00 + uint16(r.Intn(0x80)), 0xfea0 + uint16(r.Intn(0x60)), 0xff44, 0xff05})
+		g.emit(0x31, uint8(a), uint8(a>>8))
+		g.emit([]byte{0xc5, 0xd5, 0xe5, 0xf5}[r.Intn(4)])
+		g.emit([]byte{0xc1, 0xd1, 0xe1}[r.Intn(3)])
+		s := g.stackAddr()
+		g.emit(0x31, uint8(s), uint8(s>>8))
 	case o.Interrupts && k < 6:
 		switch r.Intn(6) {
 		case 0:
